@@ -293,6 +293,38 @@ def run(R):
             harness_errors.append((c, i, m))
         elif differs(i, m):
             bad.append((c, i, m))
+    # Every provider runs on its own goroutines against real files / sockets: on a busy machine a step can be observed
+    # before the provider got to it (S3 client retrying with back-off, fsnotify batching). A disagreement therefore
+    # counts only if it shows again when the history is run alone; a defect of the code is deterministic here.
+    flaky = 0
+
+    def confirmed(c, i, m, pred):
+        nonlocal flaky
+        for _ in range(2):
+            i2 = vlib.run_cases([exe], [c], timeout=600)[0]
+            if pred(i2):
+                return i2
+        flaky += 1
+        return None
+
+    kept = []
+    for c, i, m in harness_errors:
+        i2 = confirmed(c, i, m, lambda x: not usable(x))
+        if i2 is not None:
+            kept.append((c, i2, m))
+    harness_errors = kept
+    kept = []
+    for c, i, m in bad[:40]:
+        i2 = confirmed(c, i, m, lambda x, m=m: usable(x) and differs(x, m))
+        if i2 is not None:
+            kept.append((c, i2, m))
+    bad = kept + bad[40:]
+    for n, (c, i, m) in enumerate(zip(cases, impl, model)):
+        # the SPEC oracle below judges the confirmed observation
+        for c2, i2, _ in bad:
+            if c2 is c:
+                impl[n] = i2
+    R.coverage["disagreements_not_reproduced_alone"] = flaky
     # impl vs SPEC on the same runs
     spec_bad = []
     spec_checked = 0
@@ -300,6 +332,11 @@ def run(R):
         if isinstance(m, dict) and "spec" in m and usable(i):
             spec_checked += 1
             sm = spec_mismatch(i, m)
+            if sm is not None and not any(c is x[0] for x in bad):
+                i2 = confirmed(c, i, m, lambda x, m=m: usable(x) and spec_mismatch(x, m) is not None)
+                if i2 is None:
+                    continue
+                i, sm = i2, spec_mismatch(i2, m)
             if sm is not None:
                 spec_bad.append((c, i, m, sm))
     st, by_kind, outcomes, nontrivial = tally(cases, model)
